@@ -27,10 +27,105 @@ def oracle(case, impl_lines, model_lines):
 
 
 def run(ctx):
+    # stage 1: the sequential engine (Core model, bodies / PartialEq / event callback faults)
     seqcheck.run_seq(ctx, ["faults"], n_quick=400, n_thorough=6000, oracle=oracle,
                      nontrivial_rule=lambda f: "injected_panic" in f and "reexec" in f,
                      thm_note=open(__file__.replace("C22.py", "notes/C22.txt")).read())
+    # stage 2: panics from the event callback and from the user's Hash / PartialEq while the
+    # interned ingredient recycles slots (see notes/C22-intern.txt)
+    intern_stage(ctx)
+    ctx.write_evidence("proof")
+
+
+def build_intern():
+    import os
+    from vplib import common
+    from checks import intern_diff as idf
+    rel = common.cargo_build("harness-intern", "default")
+    idf.HARNESS_BIN = os.path.join(rel, "intern_harness")
+    common.sh([os.path.join(common.ROOT, "ocaml/intern/build.sh"), common.ROOT], timeout=900, check=True)
+    return idf
+
+
+def intern_stage(ctx):
+    import time
+    from vplib import common
+    t0 = time.time()
+    idf = build_intern()
+    res = idf.run_intern_panic(ctx.seed, ctx.tier)
+    _, _, hashval = idf.shard_map(True)
+    reported = 0
+    for vf in res["value_failures"][:2]:
+        # a concrete failing history: shrink while the implementation-side oracle still fails
+        small, problems = idf.shrink_value_failure(vf["case"], hashval, budget=250)
+        if not problems:
+            small, problems = vf["case"], vf["problems"]
+        ctx.violation(dict(kind="after a panic in user code (event callback / Hash / Eq of an interned field) "
+                                "a request differs from a fresh database",
+                           engine="intern", case=small, problems=problems[:6],
+                           case_seed=vf["case_seed"], how_to_replay="./vp replay <this file>"))
+        reported += 1
+    if reported == 0 and res["model_mismatches"]:
+        mm = res["model_mismatches"][0]
+
+        def fails(cand):
+            return bool(idf.check_case_full(cand, True, hashval)["model_problems"])
+        small = idf.shrink(mm["case"], 150, True, hashval, fails)
+        p2 = idf.check_case_full(small, True, hashval)["model_problems"]
+        ctx.violation(dict(kind="correspondence model/implementation no longer holds",
+                           relation="Intern model vs implementation under panics in user code (hook H5b commit/"
+                                    "touch/abort records replayed through Model.intern_cut: path, id, generation, "
+                                    "slot stamps, revision queue, LRU order, events)",
+                           engine="intern", case=small, first_difference=(p2 or mm["problems"])[:5],
+                           n_cases_differing=len(res["model_mismatches"]),
+                           search="implementation-side oracles over %d generated histories (%d requests after a "
+                                  "panic) found no failing input" % (res["cases"], res["requests_checked_after_a_panic"])),
+                      no_input=True)
+    if res["known_finding_cases"]:
+        listed = [kf for kf in common.known_findings()
+                  if kf["property"] == ctx.prop and kf["class"] == idf.KNOWN_ORPHAN]
+        text = listed[0]["text"] if listed else (
+            "a panic of the user's Hash during the key-map growth of intern_id_cold (insert_value links the new "
+            "slot into the LRU before the key-map insertion that rehashes) leaves a slot that reuse can pick but "
+            "that has no key-map entry; the first later interning that picks it panics once with salsa's own "
+            "`interned value in LRU so must be in key_map` although no user code panics any more "
+            "(see checks/notes/C22-intern.txt; not yet listed in known-findings.txt)")
+        ctx.known_finding("class=%s %s (met in %d generated cases)" % (idf.KNOWN_ORPHAN, text, res["known_finding_cases"]))
+    stage = {k: res[k] for k in ("cases", "requests", "records", "hook_h5b", "nshards", "cases_with_panic",
+                                 "cases_with_unwound_reuse", "panics_by_fault", "unwound_calls",
+                                 "requests_checked_after_a_panic", "known_finding_cases", "known")}
+    stage.update({
+        "value_oracle_failures": len(res["value_failures"]),
+        "implementation_vs_model_disagreements": len(res["model_mismatches"]),
+        "rule": "panic profile of checks/intern_diff.py (churn over collectable interned types, memos attached to "
+                "the interned values, event callback / Hash / PartialEq armed to panic, every request under "
+                "catch_unwind, the request repeated in the same and in later revisions)",
+        "oracles": ["every completed request equals the from-scratch value (handle read-back, value of the function "
+                    "keyed by the handle, field read inside the query)",
+                    "one handle per value and one value per handle within a revision",
+                    "no panic but the injected ones, and only in a request in which a fault fired",
+                    "replay of the unwound linearisation through the extracted model (needs hook H5b)"],
+        "samples": res["samples"][:1],
+        "note": open(__file__.replace("C22.py", "notes/C22-intern.txt")).read(),
+        "wall_s": round(time.time() - t0, 1),
+    })
+    ctx.coverage["intern_stage"] = stage
+    ctx.coverage["evaluations"] = ctx.coverage.get("evaluations", 0) + res["cases"]
+    if "wall_s" in ctx.coverage:
+        ctx.coverage["wall_s"] = round(ctx.coverage["wall_s"] + stage["wall_s"], 1)
 
 
 def replay(ctx, rp):
+    if rp.get("engine") == "intern":
+        idf = build_intern()
+        if "case" not in rp:
+            print("no concrete input recorded:", rp.get("relation"))
+            return 1
+        _, _, hashval = idf.shard_map(True)
+        r = idf.check_case_full(rp["case"], True, hashval, replay=idf.h5b_present())
+        rc, out, _ = idf.run_harness(rp["case"], True)
+        print("\n".join(l for l in out.splitlines() if l.startswith(("OP ", "RET ", "FAULT "))))
+        print("implementation-side oracles:", r["value_problems"] or "ok")
+        print("model vs implementation:", r["model_problems"] or "agree")
+        return 1 if (r["value_problems"] or r["model_problems"]) else 0
     return seqcheck.replay(ctx, rp)
